@@ -48,6 +48,10 @@ func hostModuleAttrs() map[string]ugo.Object {
 	hostStates = append(hostStates[:0], st) // one live module map per run
 	return map[string]ugo.Object{
 		"state": st,
+		"":      ugo.Int(99), // an attribute with the empty name
+		"errA":  &ugo.Error{Name: "NotFound", Message: "no such thing"},
+		"errB":  &ugo.Error{Name: "Timeout", Message: "too slow"},
+		"rterr": (&ugo.Error{Name: "Wrapped", Message: "inner"}).NewError("outer"),
 		"bump": &ugo.Function{Name: "bump", Value: func(args ...ugo.Object) (ugo.Object, error) {
 			st.N++
 			return ugo.Int(st.N), nil
@@ -116,6 +120,8 @@ return {
 	get: func() { return counter },
 	fail: func(x) { return x.nosuch.field },
 }`},
+	// a module whose very first token raises an error (position offset 0 of its file)
+	{"modC", "throw error(\"first token of modC\")\n"},
 	{"modB", `
 a := import("modA")
 return {
